@@ -21,6 +21,10 @@ static const char *verif_element_at(const SDAI_Enum *, int n) { return n == 0 ? 
 static void verif_set_null(SDAI_Enum *e) { g_set_null_calls++; e->v = 2; }
 static int verif_is_null(const SDAI_Enum *e) { return e->v >= 2 || e->v < 0; }
 #include "enum_extract.inc"
+/* contract model of ReadEnum for its caller STEPread: it may leave any severity in the descriptor */
+static Severity g_readenum_sev; static int g_readenum_calls, g_readenum_assign, g_readenum_delims;
+static Severity verif_ReadEnum(SDAI_Enum *, istream &, ErrorDescriptor *err, int assign, int needDelims) { g_readenum_calls++; g_readenum_assign = assign; g_readenum_delims = needDelims; err->severity(g_readenum_sev); return g_readenum_sev; }
+#include "enum_stepread_extract.inc"
 #include "src/clutils/errordesc.cc"
 #include "verif.h"
 const char *StrToUpper(const char *w, std::string &s) { s.clear(); for (int i = 0; i < 31 && w[i]; i++) s += (char)toupper(w[i]); return s.c_str(); }
@@ -74,4 +78,19 @@ extern "C" void h_Enum_write()
         __CPROVER_assert(out._m_written == 3 && out._m_logc[0] == 'S' && out._m_logt[0][0] == '.' && out._m_logt[0][1] == 0 && out._m_logc[2] == 'S' && out._m_logt[2][0] == '.' && out._m_logt[2][1] == 0, "C09 an enumeration value is written between dots");
         __CPROVER_assert(out._m_logc[1] == 'S' && !strcmp(out._m_logt[1], in_v == 0 ? "RED" : "GREEN"), "C09 an enumeration value is written as its declared (upper-case) item name");
     }
+}
+
+/* C03: STEPread forgives exactly one thing, a MISSING value of an OPTIONAL attribute; every error found by the item
+ * reader (undeclared item, missing dots) survives, optional or not */
+extern "C" void h_Enum_STEPread()
+{
+    IN(int, in_sev); IN(int, in_optional);
+    __CPROVER_assume(in_sev == SEVERITY_NULL || in_sev == SEVERITY_USERMSG || in_sev == SEVERITY_INCOMPLETE || in_sev == SEVERITY_WARNING || in_sev == SEVERITY_INPUT_ERROR || in_sev == SEVERITY_BUG || in_sev == SEVERITY_EXIT || in_sev == SEVERITY_DUMP || in_sev == SEVERITY_MAX);
+    istream in; in._m_state = 0; in._m_have = 0; in._m_consumed = 0; g_stream_arbitrary = 1;
+    SDAI_Enum *e = (SDAI_Enum *)malloc(sizeof(SDAI_Enum)); e->v = 0;
+    ErrorDescriptor err; g_readenum_sev = (Severity)in_sev; g_readenum_calls = 0;
+    Severity s = e->SDAI_Enum::STEPread(in, &err, in_optional);
+    __CPROVER_assert(g_readenum_calls == 1 && g_readenum_assign && g_readenum_delims, "the item reader is run once, assigning, and insisting on the dots of an exchange file");
+    if (in_sev == SEVERITY_INCOMPLETE && in_optional) __CPROVER_assert(s == SEVERITY_NULL && err.severity() == SEVERITY_NULL, "a missing value of an OPTIONAL enumeration attribute is no error");
+    else __CPROVER_assert(s == (Severity)in_sev && err.severity() == (Severity)in_sev, "C03 every other outcome of the item reader, in particular an undeclared item or missing dots (an error), is reported unchanged, OPTIONAL or not");
 }
